@@ -6,7 +6,7 @@ WT=/tmp/sirc-redetect
 git -C /repo worktree remove --force $WT 2>/dev/null; rm -rf $WT
 git -C /repo worktree add --detach $WT -q || exit 2
 cp /repo/Cargo.lock $WT/ 2>/dev/null
-LOG=.build/logs/redetect.log; : > $LOG
+LOG=${REDETECT_LOG:-.build/logs/redetect.log}; : > $LOG
 IDS="$@"; [ -z "$IDS" ] && IDS=$(ls seeded)
 for id in $IDS; do
   git -C $WT checkout -q -- . ; git -C $WT apply /verif/seeded/$id/patch.diff || { echo "$id APPLY-FAILED" >> $LOG; continue; }
